@@ -206,6 +206,7 @@ def main(argv=None):
     seen = set()
     os.makedirs(os.path.join(VERIF, "replays"), exist_ok=True)
     todo = []  # (result, cx, path)
+    twin_todo = []
     for r in results:
         c = r["case"]
         if not r.get("ok"):
@@ -219,6 +220,16 @@ def main(argv=None):
                     f"{c['id']}: vacuity twin was not refuted (harness never reaches its assertion?)"
                 )
             r["twin_ok"] = bool(cexs)
+            if cexs and c.get("kind", "xsym") == "xsym":
+                # the witness found symbolically must also be a witness when the harness runs natively: one more
+                # cross-check of symbolic vs concrete execution of the real code
+                cx = cexs[0]
+                rp = {"property": prop, "case": c, "args": cx["args"], "message": cx["message"], "detail": cx.get("detail")}
+                h = hashlib.sha1(json.dumps(rp, sort_keys=True, default=str).encode()).hexdigest()[:12]
+                path = os.path.join(VERIF, "replays", f"{prop}-twin-{h}.json")
+                with open(path, "w") as f:
+                    json.dump(rp, f, indent=1, default=str)
+                twin_todo.append((r, cx, path))
             continue
         cand_seen = set()
         for cx in cexs:
@@ -240,6 +251,16 @@ def main(argv=None):
 
     with ThreadPoolExecutor(max_workers=max(1, a.j)) as tp:
         outs = list(tp.map(lambda t: do_replay(t[2]), todo))
+        touts = list(tp.map(lambda t: do_replay(t[2]), twin_todo))
+    for (r, cx, path), out in zip(twin_todo, touts):
+        try:
+            os.remove(path)
+        except OSError:
+            pass
+        if not out["reproduced"]:
+            harness_errors.append(f"{r['case']['id']}: vacuity witness found symbolically does not reproduce natively: {out['info'][:300]}")
+        else:
+            r["validated_concretely"] = r.get("validated_concretely", 0) + 1
     for (r, cx, path), out in zip(todo, outs):
         c = r["case"]
         replayed += 1
